@@ -432,8 +432,8 @@ def e2e(chk):
          [(1, "{\n"), (90, "  # a line of a long comment block ....\n"), (1, "  a: 1,\n}\n")], "{a: 1}", 3600),
         ("token", "string", [(1, 's := "'), (3000, "a"), (1, '"\n')], '(s := "%s")' % ("a" * 3000), 3000),
     ]
-    # a multi-byte character placed at every offset around the 4 KiB and 8 KiB marks
-    for base in (4096, 8192):
+    # a multi-byte character placed at every offset around every power of two from 64 bytes to 64 KiB (sniffed heads, buffers, chunks)
+    for base in (64, 128, 256, 512, 1024, 2048, 4096, 8192, 16384, 32768, 65536):
         for n in range(base - 12, base + 4):
             corpus.append(("token", "utf8 string after %d bytes of comment" % n,
                            [(1, "#"), (n - 2, "c"), (1, "\n"), (1, 'x := "日本語✓é"\n')], '(x := "日本語✓é")', n))
@@ -576,6 +576,27 @@ def main(chk):
     ewant = "[" + ", ".join('"%s"' % r for r in raws) + "]"
     eo = harness("eval", [{"src": eprog + ".{|a| a@{|s| s.len}}"}, {"src": "[" + ", ".join("`%s`" % r for r in raws) + "].{|a| a@{|s| s.len}}"}])
     chk.count(("eval-raw", eprog), True)
+    # a long token is taken with its FULL text: two names / str keys of one length that differ in a single character, at every
+    # position, are two names (whatever is derived from a token — hash, table key — must depend on all of it)
+    tprogs, tmeta = [], []
+    for L in (33, 34, 41, 48, 64, 65, 100):
+        base = "".join("nqz_"[i % 4] for i in range(L))
+        for pos in range(L):
+            n1 = base[:pos] + "a" + base[pos + 1:]
+            n2 = base[:pos] + "b" + base[pos + 1:]
+            tprogs.append('%s := 1\n%s := 2\no := {%s: 3, %s: 4}\nm := %%{"%s": 5, "%s": 6}\n[%s, %s, o.%s, o.%s, m["%s"], m["%s"], o.keys(private?: true).len, m.len]'
+                          % (n1, n2, n1, n2, n1, n2, n1, n2, n1, n2, n1, n2))
+            tmeta.append((L, pos, n1, n2))
+    touts = harness("eval", [{"src": t_} for t_ in tprogs], shards=NCPU)
+    for prog, (L, pos, n1, n2), o in zip(tprogs, tmeta, touts):
+        chk.count(("token-identity", L, pos), True)
+        if not (o["kind"] == "value" and o.get("repr") == "[1, 2, 3, 4, 5, 6, 2, 2]"):
+            chk.fail("two tokens of %d characters that differ only in character %d are not kept apart: variables, properties and str keys "
+                     "named `%s…` / `%s…` give %s, expected [1, 2, 3, 4, 5, 6, 2, 2]" % (L, pos, n1[:max(8, pos + 2)], n2[:max(8, pos + 2)],
+                                                                                        o.get("repr") or (o.get("errk"), o.get("errmsg"))),
+                     {"harness": "eval", "program": prog, "got": {k: o.get(k) for k in ("kind", "repr", "errk", "errmsg")},
+                      "want": "[1, 2, 3, 4, 5, 6, 2, 2]"}, klass="C16:token-identity")
+            break
     if eo[0]["kind"] != "value" or eo[0].get("repr") != eo[1].get("repr"):
         chk.fail("raw strings inside sources given to Str#eval one after the other do not keep their text: lengths %s, written directly %s" % (
             eo[0].get("repr") or (eo[0].get("errk"), eo[0].get("errmsg")), eo[1].get("repr")),
